@@ -8,6 +8,13 @@
   root context). The model's destroy point is therefore a LOWER bound for the library's, the release of the contexts
   involved the upper bound; constructor and method events, with their arguments, are exact.
 
+  A call whose later argument raises (`callThrow`) is modelled as `FunctorManager::createEnv` does it: the runtime
+  context — taken from the function's cache (then its slots were reset first, which releases what they still held) or
+  newly created — goes back to the FRONT of the cache, and the parameter values already bound STAY in its slots
+  (`St.held`). They are released when that context is recycled by the next call of the function under the same root
+  (before the new parameters are bound), or when the root context is released (`S.release` destructs every handle
+  owned by a context cached under the root). For these objects the model's destroy point is exact.
+
   Rendering of each instruction as BLOC source: vlib/props/c17.py (`render`).
 -/
 import BlocV.Model.Plugin
@@ -54,8 +61,8 @@ structure St where
   s : SState
   evs : List String                       -- events of the current host operation, oldest first
   cache : List ((Nat × String) × List Nat)  -- (root context, function) ↦ cached runtime contexts (front = next to be reused)
-  orphaned : Bool
   involved : List (Nat × Nat) := []       -- (object, root context) for every handle a context under that root ever owned
+  held : List (Nat × List (String × V)) := []  -- cached runtime context ↦ the values left in its slots by a call that failed in createEnv
 
 inductive Out
   | ok
@@ -146,6 +153,19 @@ def setCache (st : St) (root : Nat) (f : String) (l : List Nat) : St :=
   else { st with cache := st.cache ++ [((root, f), l)] }
 
 def paramName (i : Nat) : String := "P" ++ toString (i + 1)
+
+/-- what a cached runtime context still holds in its slots -/
+def heldOf (st : St) (c : Nat) : List (String × V) :=
+  match st.held.find? (·.1 == c) with
+  | some e => e.2
+  | none => []
+
+/-- `createEnv`, recycled context: every slot is assigned a fresh typed null (`_storage_pool[i].value = Value(symbol)`),
+which releases what the slot held -/
+def resetSlots (st : St) (c : Nat) : Except HErr St :=
+  match (heldOf st c).foldlM (m := Except HErr) (fun st e => clearV st e.2) st with
+  | .ok st' => .ok { st' with held := st'.held.filter (·.1 != c) }
+  | .error e => .error e
 
 def argDump (st : St) (v : V) : String :=
   match v with
@@ -333,8 +353,9 @@ def execLoop (funcs : List Func) (root : Nat) : Nat → Nat → List Instr → S
     | r => r
 
 /-- FunctorExpression::value + FunctorManager::createEnv. `thrower = some y`: one more argument `Y.fail(1)` follows the
-listed ones; if `Y` holds an object its evaluation raises after the listed parameters were bound, and the runtime
-context is neither cached nor deleted. -/
+listed ones; if `Y` holds an object its evaluation raises after the listed parameters were bound: `createEnv` catches,
+pushes the runtime context back to the front of the function's cache and rethrows; the bound values stay in the slots
+of that context (`held`) until it is recycled (slots reset) or released with its root. -/
 def doCall (funcs : List Func) (root : Nat) : Nat → String → String → List String → Option String → St → Frame → Step
   | 0, _, _, _, _, st, fr => (st, fr, .haz .illFormed)
   | fuel + 1, x, f, args, thrower, st, fr =>
@@ -345,7 +366,11 @@ def doCall (funcs : List Func) (root : Nat) : Nat → String → String → List
       let cached := getCache st root f
       let r : Except HErr (St × Nat) :=
         match cached with
-        | c :: more => .ok (setCache st root f more, c)
+        | c :: more =>
+          -- a recycled context starts like a new one: its slots are reset before the parameters are bound
+          match resetSlots (setCache st root f more) c with
+          | .ok st' => .ok (st', c)
+          | .error e => .error e
         | [] =>
           match sop st (.childCtx fr.cid) with
           | .ok st' => .ok (st', st.s.ctxs.length)
@@ -368,11 +393,11 @@ def doCall (funcs : List Func) (root : Nat) : Nat → String → String → List
             | none => none
           match throws with
           | some o =>
-            -- the last argument raises: Env is never built, nobody owns the context any more
-            let st3 := { st2 with evs := st2.evs ++ ["M " ++ objName o ++ " fail I:1"], orphaned := true }
-            match sop st3 (.orphan c) with
-            | .ok st4 => (st4, fr, .err false)
-            | .error e => failHaz st fr e
+            -- the last argument raises: Env is never built; createEnv hands the context back to the cache (front) with
+            -- the parameters bound so far still in its slots
+            let st3 := { st2 with evs := st2.evs ++ ["M " ++ objName o ++ " fail I:1"],
+                                  held := (c, vars) :: st2.held.filter (·.1 != c) }
+            (setCache st3 root f (c :: getCache st3 root f), fr, .err false)
           | none =>
             match execList funcs root fuel fn.body st2 ⟨c, vars⟩ with
             | (st3, cfr, out) =>
